@@ -92,9 +92,9 @@ def _req():
 
 
 def strat_units():
-    return st.builds(lambda iso, req, br, qa, qb: {"iso": iso, "req": req, "branch": br, "qa": qa, "qb": qb},
+    return st.builds(lambda iso, req, br, qa, qb, via: {"iso": iso, "req": req, "branch": br, "qa": qa, "qb": qb, "copy": via},
                      S.point_desc(min_points=2, max_points=10), _req(), st.sampled_from([None, "ads", "des", "all"]),
-                     st.floats(0, 1), st.floats(0, 1))
+                     st.floats(0, 1), st.floats(0, 1), st.sampled_from(["clone", "clone", "same_frame", "data()"]))
 
 
 def _kw_p(prep):
@@ -117,8 +117,16 @@ def _t(x):
     return tuple(x) if x is not None else None
 
 
-def _converted_clone(iso, prep, lrep, mrep):
-    c = K.clone_point(iso)
+def _converted_clone(iso, prep, lrep, mrep, via="clone"):
+    if via == "same_frame":
+        # the working-copy idiom: a second isotherm made by the library from the first one's own table
+        c = pygaps.PointIsotherm.from_isotherm(iso, isotherm_data=iso.data_raw, pressure_key=iso.pressure_key,
+                                               loading_key=iso.loading_key)
+    elif via == "data()":
+        c = pygaps.PointIsotherm.from_isotherm(iso, isotherm_data=iso.data(), pressure_key=iso.pressure_key,
+                                               loading_key=iso.loading_key)
+    else:
+        c = K.clone_point(iso)
     if prep is not None:
         c.convert_pressure(mode_to=prep[0], unit_to=prep[1])
     if mrep is not None:
@@ -148,7 +156,13 @@ def check_units(desc, ctx):
     if not np.array_equal(np.asarray(iso.loading(**kwb), dtype=float), nat_l):
         raise Violation(f"loading({kwb}) != stored rows", tag="native_read")
 
-    clone = _converted_clone(iso, prep, lrep, mrep)
+    clone = _converted_clone(iso, prep, lrep, mrep, desc.get("copy", "clone"))
+    ctx.label("copy_" + desc.get("copy", "clone"))
+    if not (np.array_equal(np.asarray(iso.pressure(**kwb), dtype=float), nat_p)
+            and np.array_equal(np.asarray(iso.loading(**kwb), dtype=float), nat_l)):
+        raise Violation(f"permanently converting a copy (made via {desc.get('copy', 'clone')}) changed the stored points of "
+                        f"the original: pressure {np.asarray(iso.pressure(**kwb)).tolist()} was {nat_p.tolist()}, loading "
+                        f"{np.asarray(iso.loading(**kwb)).tolist()} was {nat_l.tolist()}", tag="copy_conversion_changed_original")
     crows = clone.data_raw if branch in (None, "all") else clone.data_raw[clone.data_raw["branch"] == (0 if branch == "ads" else 1)]
 
     # ---- pressure
